@@ -24,13 +24,15 @@ from common import nets
 warnings.filterwarnings('ignore')
 
 ID = 'C05'
-N = {'quick': 700, 'thorough': 16000}
+N = {'quick': 1500, 'thorough': 30000}
 LEAN_MODULES = ['GnpyProofs.Props.C05']
 THEOREMS = [f'Gnpy.Fiber.{t}' for t in (
     'exp_alpha_is_db', 'lumped_once', 'createLumped_sorted', 'propagateP_eq', 'loss_budget', 'span_loss_budget',
     'lumped_same_position_failed_before_fix', 'cd_additive', 'latency_additive', 'quadrature_fold', 'quadrature_perm',
     'pmd_quadrature', 'pdl_quadrature', 'path_order_irrelevant', 'fibre_pmd_sq', 'fibre_pdl_unchanged', 'latency_formula',
-    'cd_at_ref')]
+    'cd_at_ref')] + [f'Gnpy.Raman.{t}' for t in (
+    'euler_zero_cr', 'eulerFactor_bounds', 'perturbative_zero_cr', 'perturbative_low_power',
+    'counterprop_gain_only_partial', 'gamma1_nonneg')]
 RULE = ('cases from one PRNG: (a) one span: random fibre (0.1-300 km in km or m, scalar or per-frequency loss, 0-3 lumped '
         'losses, ~6 % with two lumped losses at one position, connectors, padding, dispersion +/-/slope/table) x comb of 1-24 '
         'channels (quick) with random previously accumulated CD/PMD/PDL/latency; (b) paths of 2-8 real elements (Fiber, Roadm '
@@ -43,7 +45,21 @@ MODEL_SCOPE = ('modelled: Fiber.__init__ lumped-loss conversion and position che
                'loss_coef_func/alpha (scalar and per-frequency), chromatic_dispersion, beta2, beta3 (scalar dispersion), pmd, '
                'FiberParams latency, the PMD/PDL updates of Roadm.propagate and Edfa.propagate. Taken from the implementation: '
                'beta3 for dispersion tables (numpy.polyfit), the ROADM impairment lookup per frequency')
-PARTIAL = []
+PARTIAL = [
+    'raman_methods_agree_partial: "the perturbative and numerical methods agree" is a numerical-analysis statement with a '
+    'resolution- and power-dependent error; NOT a theorem. Monitor: |perturbative(order k) - numerical| <= '
+    '(10/ln10)(2 (a+Y)^2 sum dz^2 (1+X) + X^(k+1)) dB without counter-pumps (Euler bound proved as eulerFactor_bounds, '
+    'truncation bound X^(k+1) heuristic), <= (10/ln10) 1e-3 (aL + |ln G|) with counter-pumps (both run iterative_algorithm, '
+    'which stops at relative accuracy 1e-3 of d ln P/dz)',
+    'counterprop_gain_only_partial: proved: the first-order perturbative term of a channel is non-negative when every wave '
+    'has non-negative Raman efficiency onto it (pumps above the signal); the full statement (output power with '
+    'counter-propagating pumps on >= with pumps off, iterative algorithm, any setting) is checked by the monitor only',
+    'low-power limit: proved for the unidirectional solver (euler_zero_cr + eulerFactor_bounds: Euler equals the budget up to '
+    '2 a^2 sum dz^2 Neper; perturbative_zero_cr / perturbative_low_power: exactly the budget on every interval between lumped '
+    'losses); the interval bookkeeping of the perturbative loop (perturbGo), iterative_algorithm and the interpolation to the '
+    'result grid are under correspondence / monitor only',
+    'lumped loss counted once with Raman on: theorem for Raman off (lumped_once) and for Euler at zero Raman efficiency '
+    '(euler_zero_cr: every lumped factor of the grid exactly once); with Raman on at finite power: monitor at low power']
 
 SIM_OFF = {'raman_params': {'flag': False}, 'nli_params': {'method': 'gn_model_analytic'}}
 POL_RANGE = (190e12, 200e12)
@@ -561,8 +577,9 @@ def run_raman(case, drv):
     #   a_max          largest attenuation coefficient [1/m]
     #   S2             sum of the squared solver steps
     #   Y, Yp, X       Raman gain rate at launch [1/m], with growth allowance exp(Y Leff), and the exponent bound Yp Leff
-    #   euler(g)       explicit Euler: 0 <= -ln(1 - x) - x <= x^2 for 0 <= x <= 1/2 (theorem euler_step_bounds), so the
-    #                  computed log-loss exceeds the exact one by at most sum (g dz)^2 Neper
+    #   euler(g)       explicit Euler: 0 <= -ln(1 - x) - x <= 2 x^2 for 0 <= x <= 1/2 (Lean: one_sub_bounds,
+    #                  eulerFactor_bounds), so the computed log-loss exceeds the exact one by at most 2 sum (g dz)^2 Neper
+    #                  (g = attenuation + Raman gain rate; the generator keeps g dz <= 1/2)
     a_max = float(np.max(alpha))
     leff = min(L, 1 / float(np.min(alpha)))
     dzs = np.diff(z2)
@@ -587,7 +604,7 @@ def run_raman(case, drv):
         low = _solver_loss(case, _raman_fiber(case, pumps=low_pumps), [x * sc for x in pw], method=method)
         tol = NEPER_DB * 2 * x_low + 1e-9
         if method == 'numerical' or euler_used:
-            tol += NEPER_DB * (a_max + yp_low) ** 2 * S2
+            tol += NEPER_DB * 2 * (a_max + yp_low) ** 2 * S2
         for i in range(n):
             if abs(low[i] - budget[i]) > tol:
                 res.fail(f'low-power limit: {method}: at {10 * math.log10(pw[i] * sc * 1e3):.1f} dBm channel {i} loses '
@@ -603,7 +620,7 @@ def run_raman(case, drv):
             # both run iterative_algorithm, which stops at a relative accuracy 1e-3 of d ln P / dz
             tol = NEPER_DB * 1e-3 * (a_max * L + max(abs(v) for v in ln) / NEPER_DB) + 1e-9
         else:
-            tol = NEPER_DB * ((a_max + yp) ** 2 * S2 * (1 + x) + x ** (order + 1)) + 1e-9
+            tol = NEPER_DB * (2 * (a_max + yp) ** 2 * S2 * (1 + x) + x ** (order + 1)) + 1e-9
         d = max(abs(a - b) for a, b in zip(lp, ln))
         if d > tol:
             res.fail(f'methods agree: perturbative(order {order}) and numerical differ by {d:.6f} dB at '
@@ -618,7 +635,7 @@ def run_raman(case, drv):
             without = _solver_loss(case, _raman_fiber(case, p=q, pumps=low_pumps), [x * sc for x in pw], method=method)
             tol = NEPER_DB * 4 * x_low + 1e-9
             if method == 'numerical' or euler_used:
-                tol += NEPER_DB * (a_max * float(np.max(dzs))) ** 2
+                tol += NEPER_DB * 2 * (a_max * float(np.max(dzs))) ** 2
             for i in range(n):
                 if abs((with_[i] - without[i]) - lum['loss']) > tol:
                     res.fail(f'lumped once: {method}: the {lum["loss"]} dB lumped loss at {lum["position"]} km changes the '
